@@ -767,4 +767,16 @@ Section Reparse.
     apply (reparse_body (fun t' v' => to_cbor env f t' v') (fun t' b' => from_cbor env json_dumps f t' b')
              (fun t' v' => to_obj' f t' v') (fun t' o' => from_obj' f t' o') IHf f (fun _ _ => eq_refl) (fun _ _ => eq_refl) t v o Hst Hto).
   Qed.
+
+  (* envelope level: re-creating from what parse shows serialises THE PARSED TREE (after the digests are recomputed) *)
+  Variable steps_prepare : list Z.
+  Corollary parse_then_create f root b o v :
+    from_cbor env json_dumps f (TRef root) b = Ok v -> st (TRef root) v -> parse env json_dumps f root b = Ok o ->
+    root = s2b "SuitEnvelopeTagged" ->
+    create env hash_names H uuid5 fs json_loads json_dumps severable_ids steps_prepare steps_processed steps_digest_ext f o
+    = (let* e2 := apply_steps env hash_names H severable_ids (fun t' v' => to_cbor env f t' v') root steps_prepare v in to_cbor env f (TRef root) e2).
+  Proof.
+    intros Hfc Hst Hp ->. unfold parse in Hp. rewrite Hfc in Hp. cbn [bind] in Hp. unfold create.
+    rewrite (describe_then_rebuild f _ v o Hst Hp). reflexivity.
+  Qed.
 End Reparse.
